@@ -511,7 +511,7 @@ func (c *converter) Copy(destination string, source string, valueUsed bool, glob
 	c.sliceCopyHelperRequired = true
 
 	helper := c.nextHelperVar()
-	c.VarAssignment(helper, c.sliceLenString(c.varEvaluationString(destination, true)), false)
+	c.VarAssignment(helper, c.sliceLenString(source), false) // The copied length is the length of the source.
 
 	return c.varEvaluationString(helper, false), nil
 }
